@@ -337,15 +337,15 @@ impl<'a> Exec<'a> {
                 executed = i + 1;
                 e.p.steps += 1;
                 let r = e.step(ev);
-                let a = apimon::allocs_in_api();
-                e.sink.check(R::C18_alloc, a == allocs_seen, || format!("{} heap allocation(s) inside API regions while executing event {}: {}", a - allocs_seen, i, ev.to_json().compact()));
-                allocs_seen = a;
                 e.sink.evals[R::C18_panic as usize] += 1;
                 if let Err(Panicked(l)) = r {
                     e.sink.check(R::C18_panic, false, || format!("panic in {} while executing event {}: {}", apimon::LABEL_NAMES[l as usize], i, ev.to_json().compact()));
                     // the panic machinery allocates; do not blame that on C18.alloc
                     break;
                 }
+                let a = apimon::allocs_in_api();
+                e.sink.check(R::C18_alloc, a == allocs_seen, || format!("{} heap allocation(s) inside API regions while executing event {}: {}", a - allocs_seen, i, ev.to_json().compact()));
+                allocs_seen = a;
             }
         }
         // unfinished round-trip trackers
